@@ -1,5 +1,5 @@
 (* The class of workflows and operations for which C01 (progress) is proved for every run (proofs/Progress.v): steps in
-   sequence whose acts are interactive (irq) acts or message (msg) acts; any schedule; complete / submit / remove / skip on any task at any time.
+   sequence whose acts are interactive (irq) acts or message (msg) acts; any schedule; complete / submit / remove / skip / abort on any task at any time.
    Definitions only (they are also extracted: the generator of the class corpus checks membership with them). *)
 From Coq Require Import List Arith ZArith Bool.
 Import ListNotations.
@@ -27,6 +27,6 @@ Definition frag_nodes (ns : list node) : bool :=
 
 
 (* the operations: any scheduler step, any tick (timeout rules of this class have no steps: a firing starts nothing), and
-   the four closing actions a client answers an act with *)
-Definition allowed (a : action) : bool := match a with ANext | ASubmit | ARemove | ASkip => true | _ => false end.
+   the five closing actions a client answers an act with (complete, submit, remove, skip, abort) *)
+Definition allowed (a : action) : bool := match a with ANext | ASubmit | ARemove | ASkip | AAbort => true | _ => false end.
 Definition frag_op (o : op) : bool := match o with OSched _ | ODrain | OTick _ => true | OAct _ a _ => allowed a end.
